@@ -599,7 +599,8 @@ theorem lemma_stepH_hprog (s : St) : ∀ a ∈ (stepH s).hprog, a ∈ s.hprog :=
       intro a h
       first
         | exact h
-        | (simp only [St.write] at h; simp_all)
+        | (simp only [St.write] at h; simp_all; done)
+        | (simp_all; first | done | exact Or.inr (List.mem_of_mem_drop ‹_›))
 
 /-- schedule without environment events of a kind -/
 def noTok (x : Tok) (sched : List Tok) : Prop := ∀ t ∈ sched, t ≠ x
@@ -719,6 +720,14 @@ theorem lemma_stepH_invB (s : St) (h : InvB s) : InvB (stepH s) := by
       exact hkeep _ h1 (by intro a ha; rw [hpr]; exact List.mem_cons_of_mem _ ha) h3 rfl rfl rfl rfl rfl
     · rename_i v r hpr
       exact absurd rfl ((h2 (.panic v) (by rw [hpr]; exact List.mem_cons_self ..)).2.2 v)
+    · rename_i n r hpr
+      refine hkeep _ h1 ?_ h3 rfl rfl rfl rfl rfl
+      intro a ha
+      rw [hpr]
+      simp only [] at ha
+      split at ha
+      · exact List.mem_cons_of_mem _ ha
+      · exact List.mem_cons_of_mem _ (List.mem_of_mem_drop ha)
 
 theorem lemma_stepR_invB (waitH pd : Bool) (s : St) (h : InvB s) : InvB (stepR waitH pd s) := by
   obtain ⟨h1, h2, h3, h4, h5, h6⟩ := h
@@ -883,6 +892,50 @@ theorem fair_is_a_schedule (waitH hFirst : Bool) (n : Nat) (s : St) :
         · obtain ⟨sched, h⟩ := ih (stepH s)
           exact ⟨.h :: sched, by simp only [ha, hb, if_true]; exact h⟩
         · exact ⟨[], by simp only [ha, hb]; rfl⟩
+
+/-- the same for the scheduler used under a real budget (it may let the timer fire) -/
+theorem fairT_is_a_schedule (waitH hFirst : Bool) (n : Nat) (s : St) :
+    ∃ sched : List Tok, fairT waitH hFirst n s = run waitH sched s := by
+  induction n generalizing s with
+  | zero => exact ⟨[], rfl⟩
+  | succ n ih =>
+    have hdl : ∀ x, (∃ sched, x = run waitH sched (step waitH s .dl)) → ∃ sched, x = run waitH sched s := by
+      rintro x ⟨sched, h⟩; exact ⟨.dl :: sched, h⟩
+    cases hFirst with
+    | true =>
+      simp only [fairT, if_true]
+      by_cases ha : (stepH s != s) = true
+      · obtain ⟨sched, h⟩ := ih (stepH s)
+        exact ⟨.h :: sched, by simp only [ha, if_true]; exact h⟩
+      · by_cases hb : (stepR waitH true s != s) = true
+        · obtain ⟨sched, h⟩ := ih (stepR waitH true s)
+          exact ⟨.rd :: sched, by simp only [ha, hb, if_true]; exact h⟩
+        · simp only [ha, hb]
+          by_cases hl : s.ctx = .live
+          · simp only [hl, if_true]
+            exact hdl _ (ih _)
+          · simp only [hl]; exact ⟨[], rfl⟩
+    | false =>
+      simp only [fairT, Bool.false_eq_true, if_false]
+      by_cases ha : (stepR waitH true s != s) = true
+      · obtain ⟨sched, h⟩ := ih (stepR waitH true s)
+        exact ⟨.rd :: sched, by simp only [ha, if_true]; exact h⟩
+      · by_cases hb : (stepH s != s) = true
+        · obtain ⟨sched, h⟩ := ih (stepH s)
+          exact ⟨.h :: sched, by simp only [ha, hb, if_true]; exact h⟩
+        · simp only [ha, hb]
+          by_cases hl : s.ctx = .live
+          · simp only [hl, if_true]
+            exact hdl _ (ih _)
+          · simp only [hl]; exact ⟨[], rfl⟩
+
+/-- the timed chain behind the middleware: after the deadline the `Next` loop of the handler
+    goroutine starts no further position — `[awaitCtx, awaitE, awaitT] ; guard ; [write] ; guard ; [write]` under
+    the real timer answers 408 once and nothing else -/
+example :
+    let prog : List HAct := [.guard 7, .awaitCtx, .awaitE, .awaitT, .guard 3, .write, .guard 1, .write]
+    let s := fairT false true 40 (init prog)
+    s.rpc = .returned ∧ s.body = [.t408] ∧ s.status = some .t408 ∧ timeoutOK (obsOf s) = true := by decide
 
 end TimeoutMw
 
